@@ -44,6 +44,8 @@ type Type struct {
 	Fields []Field
 	// Methods: Go source of the methods declared on a Named type (printed after its declaration)
 	Methods string
+	// ExtraVals: values appended to the pool of a Named type (set for the magnitude-method types only)
+	ExtraVals []*Val
 }
 
 func B(s string) *Type        { return &Type{K: KBasic, Basic: s} }
@@ -260,8 +262,15 @@ type Catalogue struct {
 	S0, SP, Rec, MA, SE, NSl, NMap, NArr, NPtr *Type
 	E1, E2, E3, E4, TwA, TwB                   *Type
 	ME, MP                                     *Type // named structs with user Equal/Compare methods (Go/Methods.v)
+	MG, MGP                                    *Type // ... whose Compare returns a magnitude and orders by the SECOND field (C13)
 	WithMethods                                bool
-	All                                        []*Type
+	// WithMagMethods (C13 only; C03 demands results in -1/0/+1 of the types it runs): adds MG and MGP to
+	// the leaves and ME, MG to the key leaves
+	WithMagMethods bool
+	// MW: named structs WITHOUT methods whose fields have them (derived Compare refuses unnamed structs, so a
+	// method type in field position needs a named wrapper); not among the leaves, used by C13's battery
+	MW  []*Type
+	All []*Type
 }
 
 func NewCatalogue() *Catalogue {
@@ -304,6 +313,31 @@ func NewCatalogue() *Catalogue {
 	c.MP.Methods = "func (a *MP) Equal(b *MP) bool {\n\tif a == nil || b == nil {\n\t\treturn a == nil && b == nil\n\t}\n\treturn a.F0 == b.F0\n}\n\n" +
 		"func (a *MP) Compare(b *MP) int {\n\tif a == nil {\n\t\tif b == nil {\n\t\t\treturn 0\n\t\t}\n\t\treturn -1\n\t}\n\tif b == nil {\n\t\treturn 1\n\t}\n" +
 		"\tif a.F0 < b.F0 {\n\t\treturn -1\n\t}\n\tif a.F0 > b.F0 {\n\t\treturn 1\n\t}\n\treturn 0\n}\n\n"
+	// ids 300..349 / 350..399: value / pointer receiver and parameter; Compare returns a difference, not
+	// -1/0/+1, and looks at the second field only (the first field is an insignificant label, so the
+	// method's order is NOT the field-by-field order); int16 so that the difference cannot overflow
+	c.MG = Named(300, "MG", 0, St(B("string"), B("int16")))
+	c.MG.Methods = "func (a MG) Equal(b MG) bool { return a.F1 == b.F1 }\n\n" +
+		"func (a MG) Compare(b MG) int { return int(a.F1) - int(b.F1) }\n\n"
+	c.MGP = Named(350, "MGP", 0, St(B("string"), B("int16"), Sl(B("int"))))
+	c.MGP.Methods = "func (a *MGP) Equal(b *MGP) bool {\n\tif a == nil || b == nil {\n\t\treturn a == nil && b == nil\n\t}\n\treturn a.F1 == b.F1\n}\n\n" +
+		"func (a *MGP) Compare(b *MGP) int {\n\tif a == nil {\n\t\tif b == nil {\n\t\t\treturn 0\n\t\t}\n\t\treturn -1\n\t}\n\tif b == nil {\n\t\treturn 1\n\t}\n" +
+		"\treturn int(a.F1) - int(b.F1)\n}\n\n"
+	// labels ordered opposite to the keys, equal keys under different labels, keys far apart
+	mg := func(lab string, k int64, rest ...*Val) *Val {
+		return &Val{K: "st", Elems: append([]*Val{vs(lab), vi(k)}, rest...)}
+	}
+	c.MG.ExtraVals = []*Val{mg("z", 1), mg("a", 5), mg("b", 1), mg("c", 5), mg("zz", -300), mg("", 300)}
+	nils := func() *Val { return &Val{K: "nils"} }
+	c.MGP.ExtraVals = []*Val{mg("z", 1, nils()), mg("a", 5, nils()), mg("b", 1, nils()), mg("c", 5, nils()), mg("zz", -300, nils()), mg("", 300, nils())}
+	c.MW = []*Type{
+		Named(40, "WE", 0, St(c.ME, B("int"))),                                // this.F0.Compare(that.F0)
+		Named(41, "WP", 0, St(B("bool"), P(c.MP))),                            // pointer field, pointer-parameter method
+		Named(42, "WG", 0, St(c.MG, B("string"))),                             // the magnitude is passed through
+		Named(43, "WGP", 0, St(B("int8"), P(c.MGP), c.MGP)),                   // this.F1.Compare(that.F1), this.F2.Compare(&that.F2)
+		Named(44, "WEP", 0, St(P(c.ME), c.MP)),                                // pointer to a value-parameter method: field-wise helper
+		Named(45, "WGG", 0, St(Sl(c.MG), M(B("string"), c.MGP), Ar(2, c.MG))), // methods below slice / map / array fields
+	}
 	c.All = []*Type{c.NInt, c.NStr, c.NBool, c.NF64, c.NU8, c.NC128, c.NU64, c.S0, c.SP, c.Rec, c.MA, c.SE, c.NSl, c.NMap, c.NArr, c.NPtr, c.E1, c.E2, c.E3, c.E4}
 	return c
 }
@@ -313,6 +347,9 @@ func (c *Catalogue) Leaves() []*Type {
 	l := c.leaves()
 	if c.WithMethods {
 		l = append(l, c.ME, c.MP)
+	}
+	if c.WithMagMethods {
+		l = append(l, c.MG, c.MGP)
 	}
 	return l
 }
@@ -325,8 +362,12 @@ func (c *Catalogue) leaves() []*Type {
 
 // KeyLeaves: value (comparable, pointer-free) types usable as map keys.
 func (c *Catalogue) KeyLeaves() []*Type {
-	return []*Type{B("bool"), B("int"), B("uint8"), B("float64"), B("string"), B("complex128"), c.NInt, c.NStr, c.NBool, c.S0, c.NArr, c.E3,
+	k := []*Type{B("bool"), B("int"), B("uint8"), B("float64"), B("string"), B("complex128"), c.NInt, c.NStr, c.NBool, c.S0, c.NArr, c.E3,
 		Ar(2, B("int")), St(B("int"), B("string"))}
+	if c.WithMagMethods {
+		k = append(k, c.ME, c.MG) // comparable structs with a value-parameter Compare method
+	}
+	return k
 }
 
 // Special: depth-2/3 shapes that take paths of their own in the generators (an array in a map value is
